@@ -132,37 +132,46 @@ package store
 // ---- the two write handlers --------------------------------------------------------------------------------
 // Trusted for this property: the database writes themselves (their own contracts belong to C01/C03/C05).
 // nodePoints does not touch the edges table; edgePoints may change it and is assumed to keep it acyclic (C05).
-//@ extern store.(*DbSqlite).edgePoints(sdb, nodeID, parentID, points)
-//@   modifies state(sdb)
-//@   ensures acyclic(sdb)
 //@ extern client.(*Metric).AddSample(m, s)
 //@ extern time.(Duration).Milliseconds(d)
+// The acknowledgements: replyN(st) calls of reply so far, replyOK(st, i): call i carried no error (an empty reply).
+//@ model func replyN(st *Store) int
+//@ model func replyOK(st *Store, i int) bool
 //@ func (*Store).reply
-//@   props C06
+//@   props C06, C04, C05
 //@   local st *store.Store#1
+//@   local err error#1
 //@   requires st != nil
+//@   modifies state(st)
+//@   assume-ensures replyN(st) == old(replyN(st)) + 1 && (replyOK(st, old(replyN(st))) <==> err == nil) && (forall i int :: i < old(replyN(st)) ==> replyOK(st, i) == old(replyOK(st, i)))
 
 //@ spec func batchOf(pts []data.Point, b []byte) bool = len(pts) == pbN(b) && (forall k int :: 0 <= k && k < len(pts) ==> sameButFilledTime(pts[k], pbPt(b, k)))
 //@ spec func nodeOf(msg *nats.Msg) string = splitPart(msg.Subject, ".", 1)
 //@ spec func parentOf(msg *nats.Msg) string = splitPart(msg.Subject, ".", 2)
 //@ func (*Store).handleNodePoints
-//@   props C06
+//@   props C06, C04, C05
 //@   local st *store.Store#1
 //@   local msg *nats.Msg#1
 //@   local err error#1
 //@   requires st != nil && st.db != nil && st.db.db != nil && msg != nil && acyclic(st.db)
-//@   modifies state(st.nc), state(st.db.db), state(sql.Tx)
+//@   modifies state(st.nc), state(st.db.db), state(sql.Tx), state(st)
+//@   ensures [C04, C05] one-reply: replyN(st) == old(replyN(st)) + 1
+//@   ensures [C04] acknowledged-only-after-commit: replyOK(st, old(replyN(st))) ==> commits(st.db.db) == old(commits(st.db.db)) + 1
+//@   ensures [C05] refused-leaves-no-trace: !replyOK(st, old(replyN(st))) ==> commits(st.db.db) == old(commits(st.db.db)) && pubN(st.nc) == old(pubN(st.nc))
 //@   ensures [C06] log-kept: pubKept(st.nc)
 //@   ensures [C06] rebroadcast-batch-is-received-batch: forall i int :: old(pubN(st.nc)) <= i && i < pubN(st.nc) ==> batchOf(pubPts(st.nc, i), msg.Data) && (exists a string :: reachL(st.db, nodeOf(msg), a) && pubSubj(st.nc, i) == sprintf("up.%v.%v", a, nodeOf(msg)))
 //@   ensures [C06] accepted-reaches-every-live-ancestor: pubN(st.nc) > old(pubN(st.nc)) && !busFailed(st.nc) && !dbFailed(st.db.db) ==> (forall a string :: reachL(st.db, nodeOf(msg), a) ==> (exists i int :: old(pubN(st.nc)) <= i && i < pubN(st.nc) && pubSubj(st.nc, i) == sprintf("up.%v.%v", a, nodeOf(msg))))
 //@   assert [C06] accepted-is-rebroadcast: err == nil at "st.processPointsUpstream(nodeID, nodeID, points)"
 //@ func (*Store).handleEdgePoints
-//@   props C06, C05
+//@   props C06, C05, C04
 //@   local st *store.Store#1
 //@   local msg *nats.Msg#1
 //@   local err error#1
-//@   requires st != nil && st.db != nil && msg != nil
-//@   modifies state(st.nc), state(st.db.db), state(st.db)
+//@   requires st != nil && st.db != nil && st.db.db != nil && msg != nil && acyclic(st.db)
+//@   modifies state(st.nc), state(st.db.db), state(st.db), state(sql.Tx), state(st), &st.db.meta.RootID
+//@   ensures [C04, C05] one-reply: replyN(st) == old(replyN(st)) + 1
+//@   ensures [C04] acknowledged-only-after-commit: replyOK(st, old(replyN(st))) ==> commits(st.db.db) == old(commits(st.db.db)) + 1
+//@   ensures [C05] refused-leaves-no-trace: !replyOK(st, old(replyN(st))) ==> commits(st.db.db) == old(commits(st.db.db)) && pubN(st.nc) == old(pubN(st.nc)) && st.db.meta.RootID == old(st.db.meta.RootID)
 //@   ensures [C06] log-kept: pubKept(st.nc)
 //@   ensures [C06] rebroadcast-batch-is-received-batch: forall i int :: old(pubN(st.nc)) <= i && i < pubN(st.nc) ==> batchOf(pubPts(st.nc, i), msg.Data) && (exists a string :: reachA(st.db, nodeOf(msg), a) && pubSubj(st.nc, i) == sprintf("up.%v.%v.%v", a, nodeOf(msg), parentOf(msg)))
 //@   ensures [C06] accepted-reaches-every-ancestor: pubN(st.nc) > old(pubN(st.nc)) && !busFailed(st.nc) && !dbFailed(st.db.db) ==> (forall a string :: reachA(st.db, nodeOf(msg), a) ==> (exists i int :: old(pubN(st.nc)) <= i && i < pubN(st.nc) && pubSubj(st.nc, i) == sprintf("up.%v.%v.%v", a, nodeOf(msg), parentOf(msg))))
@@ -335,3 +344,84 @@ package store
 //@     invariant -1 <= rangeindex && rangeindex < len(writePoints) || rangeindex == -1
 //@     invariant txOpen(tx) && txDb(tx) == sdb.db && stmt != nil && stmtTx(stmt) == tx && openTxs(sdb.db) == old(openTxs(sdb.db)) + 1 && commits(sdb.db) == old(commits(sdb.db)) && len(writePoints) == len(writePointIDs)
 //@     decreases len(writePoints) - rangeindex
+
+// reachU(db, x, a): a is x or an ancestor of x through any edges (no sentinel) - what isAncestor computes
+//@ model func reachU(db *DbSqlite, x string, a string) bool
+//@ axiom reachU_def: forall db *DbSqlite, x string, a string :: reachU(db, x, a) <==> (a == x || (exists p string :: isEdge(db, x, p) && reachU(db, p, a)))
+//@ axiom reachU_step: forall db *DbSqlite, x string, p string, a string :: triggers(reachU(db, p, a), isEdge(db, x, p)) ==> (isEdge(db, x, p) && reachU(db, p, a) ==> reachU(db, x, a))
+//@ func (*DbSqlite).isAncestor
+//@   props C05
+//@   local sdb *store.DbSqlite#1
+//@   local tx *sql.Tx#1
+//@   local anc string#1
+//@   local id string#2
+//@   local edges []data.Edge#1
+//@   requires sdb != nil && tx != nil && txOpen(tx) && acyclic(sdb)
+//@   modifies state(sdb.db)
+//@   decreases rank(sdb, id)
+//@   assert [C05] self: reachU(sdb, id, id) at "sdb.edges(tx, \"SELECT * FROM edges WHERE down=?\", id)"
+//@   ensures [C05] txOpen(tx) && dbKept(sdb.db)
+//@   ensures [C05] finds-every-ancestor: res1 == nil ==> (res0 <==> reachU(sdb, id, anc))
+//@   loop 1:
+//@     invariant -1 <= rangeindex && rangeindex < len(edges) || rangeindex == -1
+//@     invariant txOpen(tx) && dbKept(sdb.db) && id != anc
+//@     invariant forall k int :: 0 <= k && k < len(edges) ==> isEdge(sdb, id, edges[k].Up)
+//@     invariant forall j int :: 0 <= j && j <= rangeindex ==> !reachU(sdb, edges[j].Up, anc)
+//@     modifies state(sdb.db)
+//@     decreases len(edges) - rangeindex
+
+//@ func (*DbSqlite).edgePoints
+//@   props C04, C05
+//@   local sdb *store.DbSqlite#1
+//@   local nodeID string#1
+//@   local parentID string#2
+//@   local points data.Points#1
+//@   local tx *sql.Tx#1
+//@   local dbPoints data.Points#2
+//@   local dbPointIDs []string#1
+//@   local writePoints data.Points#3
+//@   local writePointIDs []string#2
+//@   local nodeType string#5
+//@   local stmt *sql.Stmt#1
+//@   requires sdb != nil && sdb.db != nil && acyclic(sdb)
+//@   modifies state(sdb.db), state(sql.Tx), state(sdb), &sdb.meta.RootID
+//@   ensures [C04, C05] no-transaction-left-open: openTxs(sdb.db) == old(openTxs(sdb.db))
+//@   ensures [C05] graph-stays-acyclic: acyclic(sdb)
+//@   ensures [C05] refused-write-commits-nothing: res0 != nil ==> commits(sdb.db) == old(commits(sdb.db))
+//@   ensures [C04] accepted-write-is-committed: res0 == nil ==> commits(sdb.db) == old(commits(sdb.db)) + 1
+//@   ensures [C05] refused-write-keeps-root-id: res0 != nil ==> sdb.meta.RootID == old(sdb.meta.RootID)
+//@   ensures [C05] self-edge-refused: nodeID0 == parentID0 ==> res0 != nil
+//@   ensures [C05] nan-refused: (exists k int :: 0 <= k && k < len(points0) && isNaN(points0[k].Value)) ==> res0 != nil
+//@   assert [C05] root-tombstone-refused: !(nodeID == sdb.meta.RootID && (exists k int :: 0 <= k && k < len(points) && points[k].Type == "tombstone" && points[k].Value > 0.0)) at "sdb.writeLock.Lock()"
+//@   assert [C05] new-edge-has-node-type: nodeType != "" at "tx.Exec(`INSERT INTO edges(id, up, down, hash, type) VALUES (?, ?, ?, ?, ?)`, edge.ID, edge.Up, edge.Down, 0, edge.Type)"
+//@   assert [C05] new-edge-closes-no-cycle: !reachU(sdb, parentID, nodeID) at "tx.Exec(`INSERT INTO edges(id, up, down, hash, type) VALUES (?, ?, ?, ?, ?)`, edge.ID, edge.Up, edge.Down, 0, edge.Type)"
+//@   havoc state(sdb) at "tx.Exec(`INSERT INTO edges(id, up, down, hash, type) VALUES (?, ?, ?, ?, ?)`, edge.ID, edge.Up, edge.Down, 0, edge.Type)"
+//@   assume edge-row-inserted: forall d string, u string :: isEdge(sdb, d, u) == (before(isEdge(sdb, d, u)) || (d == nodeID && u == parentID)) at "tx.Exec(`INSERT INTO edges(id, up, down, hash, type) VALUES (?, ?, ?, ?, ?)`, edge.ID, edge.Up, edge.Down, 0, edge.Type)"
+//@   assume dag-insertion-lemma: before(acyclic(sdb)) && !before(reachU(sdb, parentID, nodeID)) ==> acyclic(sdb) at "tx.Exec(`INSERT INTO edges(id, up, down, hash, type) VALUES (?, ?, ?, ?, ?)`, edge.ID, edge.Up, edge.Down, 0, edge.Type)"
+//@   loop 1:
+//@     invariant -1 <= rangeindex && rangeindex < len(points) || rangeindex == -1
+//@     invariant forall k int :: 0 <= k && k <= rangeindex ==> !(points[k].Type == "tombstone" && points[k].Value > 0.0)
+//@     decreases len(points) - rangeindex
+//@   loop 2:
+//@     invariant txOpen(tx) && txDb(tx) == sdb.db && openTxs(sdb.db) == old(openTxs(sdb.db)) + 1 && commits(sdb.db) == old(commits(sdb.db))
+//@     invariant sinceLoop(dbPoints) && sinceLoop(dbPointIDs) && len(dbPoints) == len(dbPointIDs)
+//@     modifies dbPoints, dbPointIDs
+//@   loop 3:
+//@     invariant -1 <= rangeindex && rangeindex < len(points) || rangeindex == -1
+//@     invariant txOpen(tx) && txDb(tx) == sdb.db && openTxs(sdb.db) == old(openTxs(sdb.db)) + 1 && commits(sdb.db) == old(commits(sdb.db))
+//@     invariant sinceLoop(writePoints) && sinceLoop(writePointIDs) && len(writePoints) == len(writePointIDs) && len(dbPoints) == len(dbPointIDs)
+//@     modifies writePoints, writePointIDs
+//@     decreases len(points) - rangeindex
+//@   loop 4:
+//@     invariant -1 <= rangeindex && rangeindex < len(dbPoints) || rangeindex == -1
+//@     invariant len(writePoints) == len(writePointIDs) && len(dbPoints) == len(dbPointIDs)
+//@     invariant refOf(writePoints) == refOf(preloop(writePoints)) || sinceLoop(writePoints)
+//@     invariant refOf(writePointIDs) == refOf(preloop(writePointIDs)) || sinceLoop(writePointIDs)
+//@     modifies writePoints, writePointIDs
+//@     decreases len(dbPoints) - rangeindex
+//@   loop 5:
+//@     invariant -1 <= rangeindex && rangeindex < len(writePoints) || rangeindex == -1
+//@     invariant txOpen(tx) && txDb(tx) == sdb.db && stmt != nil && stmtTx(stmt) == tx && openTxs(sdb.db) == old(openTxs(sdb.db)) + 1 && commits(sdb.db) == old(commits(sdb.db)) && len(writePoints) == len(writePointIDs)
+//@     decreases len(writePoints) - rangeindex
+//@   loop 6:
+//@     invariant txOpen(tx) && txDb(tx) == sdb.db && openTxs(sdb.db) == old(openTxs(sdb.db)) + 1 && commits(sdb.db) == old(commits(sdb.db))
